@@ -249,7 +249,10 @@ def run_case(ctx, case, rng):
     live = common.live_tree(ctx, case['spec'], rng)
     try:
         with common.captured():
-            with probe.step_budget(STEPS):
+            # the budget separates "does not terminate" from "slow": it grows
+            # with the cube of the sentence length
+            ntok = len(gen.tokens_of(case['spec']['root']))
+            with probe.step_budget(STEPS * max(1, ntok // 20) ** 3):
                 for i, (step, params) in enumerate(case['seq']):
                     Cur.step = '%d:%s%s' % (i + 1, step, params or '')
                     live = getattr(tr, step)(live, **params)
